@@ -17,6 +17,8 @@ def Ring.seqs (r : Ring) : List Int := r.keys.map (·.seq)
 /-- sequence numbers are strictly increasing in ring order -/
 def Incr (r : Ring) : Prop := r.seqs.Pairwise (· < ·)
 
+instance (r : Ring) : Decidable (Incr r) := by unfold Incr; infer_instance
+
 /-- `nextSeqnum` as a function of the list of sequence numbers -/
 def nextOf (l : List Int) : Int :=
   match l.getLast? with
